@@ -158,6 +158,38 @@ DESC = {
     "C18-8": "two edits: JVPNode prefers a rule stored on the primitive + defjvp_argnums stores only the first registration there (forward-mode twin of C18-5)",
     "C20-9": "two edits: one shared root node per node type + make_jvp sets the tangent on that shared root afterwards (forward-mode traces of two threads share a tangent)",
     "C20-10": "checkpoint memoises its recomputed VJP per checkpointed function in two dicts written at different times (threads sharing a checkpointed function)",
+    "C01-11": 'power VJP for the base rewritten as y*ans/x with x==0 replaced by 1 (exponent exactly 1 at a zero base gets cotangent 0 instead of 1)',
+    "C01-12": 'two edits: a new VJP rule for np.flip built on reverse_axis + reverse_axis rewritten so that a literal axis 0 counts from the back (flip along axis 0 of rank>=2 reverses the last axis of the cotangent)',
+    "C02-11": 'p-norm JVP divides by ans**(ord-1) inside the contraction (reduced norm broadcast against the unreduced array: axis not first)',
+    "C02-12": 'two edits: log_of_base projects log(x) to the kind of its second argument + the power JVP passes the exponent there (complex base, real exponent)',
+    "C03-11": 'multiply VJP returns where(g == 0, 0, y*g): first order unchanged, derivative of the backward pass at a zero cotangent lost',
+    "C03-12": "two edits: defjvp_argnum sums tangent terms in place into the first one + sparse_add's JVP returns its tangent itself (forward over reverse with a value feeding a sum and an index)",
+    "C04-9": "tensordot_adjoint_0 sorts the contracted axes instead of ordering them by the partner's axes (axes=([0,1],[1,0]))",
+    "C04-10": 'two edits: rollaxis VJP accepts negative axis/start (correct) + rollaxis JVP rewritten with moveaxis, wrong for negative arguments',
+    "C05-11": "concatenate VJP builds the piece's slice as (slice(None),)*axis + ...: a negative axis slices axis 0",
+    "C05-12": "two edits: repeat_to_match_shape returns g unchanged for kept size-1 reductions + std's complex promotion only for 0-d input (complex std over size-1 axes with keepdims gives a real gradient)",
+    "C06-11": 'array() passes ndmin (and every other argument) down to each element of a list argument',
+    "C06-12": 'two edits: dict() returns the plain dict unless a value is boxed + _make_dict sorts its entries (iteration order differs under tracing)',
+    "C07-9": 'logaddexp VJP rewritten in the logistic form g/(1+exp(y-x)): second order is nan at saturated arguments',
+    "C07-10": 'two edits: the second-order rule of dot_adjoint_1 loses match_complex + dot_adjoint_0 returns early without the dtype cast for stacked right operands (real A, complex B of rank>=3, both depending on the input)',
+    "C08-11": 'find_top_boxed_args rewritten with itertools.groupby: top-level boxes separated by a lower-level box are dropped (three or more traced arguments in one call)',
+    "C08-12": 'two edits: nodes of primitives tagged backward_only unbox their non-differentiated operands + dot/tensordot adjoints and untake are tagged (depth>=3 around a matrix product)',
+    "C09-9": 'ifftshift VJP loses its outer conjugation (complex input)',
+    "C09-10": "two edits: unbroadcast decides the projection to real from the dtype slot of its metadata + grad_cross puts the result's dtype there (cross of a real with a complex operand)",
+    "C10-11": 'two edits: reduction VJPs take their zero block from a kept per-(shape,dtype) cache for >= 2**16 entries + make_rfft_factors takes its factor array from the same cache and fills it in place',
+    "C10-12": 'replace_zero patches exact zeros in the array it was given (abs at 0 and power with a zero base modify the primal result / the operand)',
+    "C13-9": 'vspace() memoises spaces by id(value) (a list or dict changed in place keeps its old space)',
+    "C13-10": 'two edits: ndarray spaces decided by membership of the dtype in complex_scalar_types + clongdouble registered outside that list (clongdouble arrays get a real space)',
+    "C14-9": "two edits: _make_dict VJP reads the cotangent by position + DictVSpace._map iterates sorted keys (a constant dict entry receives its neighbour's gradient)",
+    "C14-10": 'nan_to_num VJP/JVP multiply by isfinite(x) instead of selecting with where (0*inf = nan when an infinite (co)tangent reaches a replaced entry)',
+    "C15-9": "grad_eigh treats every UPLO other than 'L' as upper (lower-case 'l' used to fail loudly, now differentiates the wrong triangle)",
+    "C15-10": 'two edits: repeat_to_match_shape swallows extra keywords + grad_np_sum forwards **kwargs (sum(where=mask) no longer raises in reverse mode and ignores the mask)',
+    "C16-9": 'grad_named memoises the argument position by (module, qualname, argname): two functions of the same qualified name share it',
+    "C16-10": 'two edits: SequenceVSpace._subval misses negative indices + VSpace._mut_add no longer updates in place (gradient entries read with negative indices come back zero)',
+    "C18-9": 'two edits: Python int registered with ArrayVSpace + with ArrayBox (an int point gets an integer space whose random directions are zero: forward check accepts anything)',
+    "C18-10": 'make_numerical_jvp rewinds the global RNG state before every evaluation (tangent and projection vector coincide: antisymmetric Jacobian errors pass)',
+    "C20-11": "two edits: unbroadcast skips the projection to real while a module flag is set + holomorphic_grad sets that flag for the duration of the call (another thread's backward pass sees it)",
+    "C20-12": 'const_graph keeps its replay value table in the closure instead of per call (concurrent replays of one recorded function mix values)',
     "C20-3": "TraceStack.__init__ with a mutable default list shared by all threads",
     "C20-4": "trace() saves/restores the depth through a module-level list shared by all threads",
 }
